@@ -351,6 +351,61 @@ Theorem driver_copy_completes_once_refuted_before_fix :
 Proof. vm_compute. repeat split; reflexivity. Qed.
 Print Assumptions driver_copy_completes_once_refuted_before_fix.
 
+(** ** The empty-copy bookkeeping (emptyCopies, completion by Tick) with the flush phase
+
+    [kstep] is the middleware as coded: rememberIfEmpty notes a command that
+    waits for no request at all (flush requests count), Tick completes every
+    noted command without looking at its requests, and a response for a command
+    that already left its queue panics in findCommandByReq.  For every request
+    set (flush requests included) with distinct IDs and every sequence of
+    responses and ticks: (a) in an environment that answers each request of the
+    command at most once and nothing else, no panic; (b) without a panic the
+    command completes at most once, and exactly when every request — flush
+    requests included — has been answered (and the driver ticked, when there is
+    no request at all). *)
+Theorem driver_copy_completes_once_with_empty_copies : forall reqs evs, NoDup (map fst reqs) ->
+  let s := krun (kstart false reqs) evs in
+  (NoDup (rsp_ids evs) -> incl (rsp_ids evs) (map fst reqs) -> cc_crashed s = false) /\
+  (cc_crashed s = false ->
+   (cc_done s <= 1)%nat /\
+   (cc_done s = 1%nat <->
+      (forall r, In r reqs -> In (fst r) (rsp_ids evs)) /\ (reqs = [] -> has_tick evs = true)) /\
+   NoDup (rsp_ids evs) /\ incl (rsp_ids evs) (map fst reqs)).
+Proof. intros reqs evs H. split; [exact (k_no_panic reqs evs H)|exact (k_completes_iff reqs evs H)]. Qed.
+Print Assumptions driver_copy_completes_once_with_empty_copies.
+
+(** A zero-byte copy whose address lies inside an L2-dirty buffer has flush
+    requests and no copy request: it is NOT noted as empty, any number of ticks
+    leaves it in its queue, the flush acknowledgements (any order, any delay) do
+    not panic, and it completes exactly once, exactly when the last of them has
+    been processed. *)
+Theorem zero_byte_copy_waits_for_flush : forall nflush evs, (0 < nflush)%nat ->
+  let s := krun (kstart false (zero_byte_reqs nflush)) evs in
+  cc_empty (kstart false (zero_byte_reqs nflush)) = false /\
+  ((NoDup (rsp_ids evs) /\ (forall id, In id (rsp_ids evs) -> exists i, (i < nflush)%nat /\ id = N.of_nat i)) ->
+     cc_crashed s = false) /\
+  (cc_crashed s = false ->
+     (cc_done s <= 1)%nat /\
+     (cc_done s = 1%nat <-> forall i, (i < nflush)%nat -> In (N.of_nat i) (rsp_ids evs))).
+Proof. exact k_zero_byte. Qed.
+Print Assumptions zero_byte_copy_waits_for_flush.
+
+(** The statement is false when "empty" is decided by the byte count (no COPY
+    request) instead of "no request at all": the first tick completes the
+    command with both flush requests unanswered, and the first acknowledgement
+    panics.  The coded decision on the same history: one completion, after the
+    last acknowledgement. *)
+Theorem zero_byte_copy_waits_for_flush_refuted_if_empty_by_byte_count :
+  let s0 := kstart true (zero_byte_reqs 2) in
+  cc_empty s0 = true /\
+  (let s := krun s0 [CTick] in cc_crashed s = false /\ cc_done s = 1%nat /\ cc_ans s = []) /\
+  (let s := krun s0 [CTick; CRsp 0] in cc_crashed s = true) /\
+  (let s := krun (kstart false (zero_byte_reqs 2)) [CTick; CRsp 1; CTick; CTick] in cc_done s = 0%nat) /\
+  (let s := krun (kstart false (zero_byte_reqs 2)) [CTick; CRsp 1; CTick; CTick; CRsp 0; CTick] in
+   cc_crashed s = false /\ cc_done s = 1%nat).
+Proof. vm_compute. repeat split; reflexivity. Qed.
+Print Assumptions zero_byte_copy_waits_for_flush_refuted_if_empty_by_byte_count.
+
 (** * The DMA engine: one completion per command, after all its sub-requests *)
 
 (** For every configuration and every finite sequence of environment events
